@@ -48,7 +48,7 @@ def gaps (j : Json) : R Json := do
     areaAvoids genes pad a && decide (start ≤ a.1) && decide (a.2 ≤ «end») && decide (a.2 - a.1 ≥ minLen)
   return jObj [("model", jArr (model.map pairJ)),
                ("spec_ok", toJson specOk),
-               ("scope", toJson (sortedByStartB genes && decide (0 ≤ pad)))]
+               ("scope", toJson (decide (0 ≤ pad)))]
 
 def partOfJson3 (j : Json) : R (Int × Int × List Gene) := do
   return (← asInt (← idx j 0), ← asInt (← idx j 1), ← listOf geneOfJson (← idx j 2))
@@ -75,7 +75,6 @@ def allorfs (j : Json) : R Json := do
   let inGaps := match areas with
     | none => true
     | some as => impl.all fun l => as.any fun a => locInArea L a l
-  let linearGenes := genes.all fun g => !Lookup.crosses g.loc
   return jObj [("areas", match areas with | none => Json.null | some as => jArr (as.map pairJ)),
                ("cross", toJson rp.1),
                ("parts", jArr (rp.2.map fun p => jArr [toJson p.1, toJson p.2.1,
@@ -89,7 +88,7 @@ def allorfs (j : Json) : R Json := do
                ("in_gaps", toJson inGaps),
                ("overlap_ok", toJson (impl.all (locOverlapOk (genes.map (·.loc)) pad))),
                ("avoids", toJson (impl.all (locAvoids allGenes pad))),
-               ("scope", toJson (Lookup.specSorted genes && linearGenes && decide (0 ≤ pad)))]
+               ("scope", toJson (Lookup.specSorted genes && decide (0 ≤ pad)))]
 
 def trimToJson : Trim → Json
   | .valueError => Json.str "value-error"
